@@ -15,6 +15,7 @@ package format_test
 //	FuzzVerifC20Source     native fuzz target over raw bytes (thorough tier; quick replays seeds)
 
 import (
+	"regexp"
 	"fmt"
 	"os"
 	"strings"
@@ -307,6 +308,8 @@ var mayOffAreas = func() map[string]bool {
 	return m
 }()
 
+var shapeEmptyReqBehindLineComment = regexp.MustCompile(`//[^\n]*\n[ \t]*\([ \t]*\)[ \t]*returns[ \t]*\(`)
+
 func newGen(t *rapid.T, small bool, assume map[string]bool) *gen {
 	g := &gen{t: t, assume: assume}
 	g.noCmt = g.chance(15, "nocomments")
@@ -318,11 +321,20 @@ func newGen(t *rapid.T, small bool, assume map[string]bool) *gen {
 	if small {
 		g.cmtPct = rapid.SampledFrom([]int{0, 8, 20}).Draw(t, "cmtpct2")
 	}
+	if !small && verifkit.EnvInt("c20_focus", 0) == 1 {
+		g.focus = true
+		g.noCmt, g.noMay = false, false
+		g.cmtPct = rapid.SampledFrom([]int{30, 50, 50}).Draw(t, "cmtpct3")
+	}
 	return g
 }
 
 func TestVerifC20Valid(t *testing.T) {
-	st := verifkit.New("valid")
+	stName := "valid"
+	if verifkit.EnvInt("c20_focus", 0) == 1 {
+		stName = "valid-focus"
+	}
+	st := verifkit.New(stName)
 	defer st.Flush()
 	known := assumed()
 	maxStmts := verifkit.EnvInt("c20_maxstmts", 6)
@@ -390,7 +402,13 @@ func TestVerifC20Valid(t *testing.T) {
 		if formatted == src {
 			st.Class("already-formatted")
 		}
-		if g.groups > 0 && nc > 0 {
+		if g.focus {
+			st.Class("focus-mode")
+		}
+		if shapeEmptyReqBehindLineComment.MatchString(src) {
+			st.Class("shape:line-comment,-empty-request-on-the-next-line,-returns-on-its-line")
+		}
+		if (g.groups > 0 || (g.focus && g.degenerate > 0)) && nc > 0 {
 			st.NonTrivial(src)
 		} else {
 			st.Class("trivial")
